@@ -291,23 +291,52 @@ C09_NOASAN static long canary_scan(const uint8_t* p, size_t lo, size_t hi,
   return -1;
 }
 
-static const size_t FULL_LIMIT = 64 << 10; // larger blocks: sampled per step
+// Blocks up to FULL_LIMIT carry a dense canary: every byte written, every byte
+// re-read after each step.  Larger blocks carry a sampled canary: the first
+// and last 4 KiB of the block (where a neighbour's overrun or a free-list link
+// written into a live block lands) plus 64 bytes at every ABSOLUTE 4 KiB
+// boundary inside it (where Galois keeps its page headers and page free-list
+// links); for blocks in freshly mapped memory (malloc fall-back, LargeArray)
+// the stride is 64 KiB because first-touch page faults would otherwise
+// dominate the run time.  The full extent of every block is still checked
+// against the interval map and the mapping table / ASan chunk.
+static const size_t FULL_LIMIT = 64 << 10;
 
-static long canary_check(const uint8_t* p, size_t n, uint64_t seed, bool full) {
-  if (full || n <= FULL_LIMIT)
+template <class F> // f(lo, hi): sampled index ranges of a large block
+static void sampled_ranges(uintptr_t a, size_t n, size_t step, F f) {
+  f((size_t)0, (size_t)4096);
+  f(n - 4096, n);
+  uintptr_t A = (a + 4096 + step - 1) / step * step;
+  for (; A + 64 <= a + n - 4096; A += step)
+    f((size_t)(A - a), (size_t)(A - a) + 64);
+}
+
+C09_NOASAN static void canary_fill_range(uint8_t* p, size_t lo, size_t hi,
+                                         uint64_t seed) {
+  for (size_t i = lo; i < hi; ++i)
+    p[i] = pat(seed, i);
+}
+
+// step == 0: dense
+static void canary_write(uint8_t* p, size_t n, uint64_t seed, size_t step) {
+  if (!step)
+    canary_fill(p, n, seed);
+  else
+    sampled_ranges((uintptr_t)p, n, step, [&](size_t lo, size_t hi) {
+      canary_fill_range(p, lo, hi, seed);
+    });
+}
+
+static long canary_check(const uint8_t* p, size_t n, uint64_t seed,
+                         size_t step) {
+  if (!step)
     return canary_scan(p, 0, n, seed);
-  long r = canary_scan(p, 0, 4096, seed);
-  if (r >= 0)
-    return r;
-  r = canary_scan(p, n - 4096, n, seed);
-  if (r >= 0)
-    return r;
-  for (size_t o = 4096; o + 64 <= n; o += 4096) {
-    r = canary_scan(p, o, o + 64, seed);
-    if (r >= 0)
-      return r;
-  }
-  return -1;
+  long r = -1;
+  sampled_ranges((uintptr_t)p, n, step, [&](size_t lo, size_t hi) {
+    if (r < 0)
+      r = canary_scan(p, lo, hi, seed);
+  });
+  return r;
 }
 
 // ---------------------------------------------------------------------------
@@ -328,6 +357,7 @@ struct Blk {
   int serial;
   uint64_t seed;
   bool in_map;
+  size_t step; // 0: dense canary, else sampling stride (see above)
 };
 
 class Shadow {
@@ -411,8 +441,11 @@ public:
     b.serial = serial++;
     b.seed   = sx::mix(b.serial + 1, 0xC09) | 0x0101010101010101ULL;
     b.in_map = inmap;
+    b.step   = n <= FULL_LIMIT                ? 0
+               : (!inmap || bk == B_MAPPING) ? (size_t)65536
+                                             : (size_t)4096;
     if (fill)
-      canary_fill((uint8_t*)vp, n, b.seed);
+      canary_write((uint8_t*)vp, n, b.seed, b.step);
     order.push_back(a);
     return live[a] = b;
   }
@@ -427,7 +460,8 @@ public:
 
   void verify(const std::string& comp, const Blk& b, bool full,
               const char* when) {
-    long bad = canary_check((const uint8_t*)b.a, b.n, b.seed, full);
+    (void)full;
+    long bad = canary_check((const uint8_t*)b.a, b.n, b.seed, b.step);
     if (bad >= 0)
       fail(comp + ":live-block-corrupted",
            "live block #%d (%zu bytes, t%d) changed at byte %ld %s", b.serial,
@@ -443,7 +477,7 @@ public:
   Blk retire(const std::string& comp, uintptr_t a) {
     Blk b = live.at(a);
     verify(comp, b, true, "before it was freed");
-    memset((void*)a, 0xEE, b.n);
+    canary_write((uint8_t*)a, b.n, 0xEEEEEEEEEEEEEEEEULL, b.step);
     live.erase(a);
     order.erase(std::find(order.begin(), order.end(), a));
     freed_here.insert(a);
@@ -1109,6 +1143,9 @@ static sx::BfsCase pts_objects_case(int qd, int td) {
     std::vector<std::unique_ptr<PtsObj>> objs;
     auto& tp = gs::getThreadPool();
     int big  = 0;
+    // offsets given back during this history and not handed out again since,
+    // per (size, backend): part of the key
+    std::map<std::pair<size_t, bool>, int> freed;
     struct Guard { // objects die before the shadow, newest first
       std::vector<std::unique_ptr<PtsObj>>& o;
       ~Guard() {
@@ -1154,6 +1191,9 @@ static sx::BfsCase pts_objects_case(int qd, int td) {
             fail("harness:impersonation-broken",
                  "getLocal() != getRemote(%u) while impersonating", t);
         }
+        int& f = freed[{x->sz, x->per_socket}];
+        if (f > 0)
+          --f;
         objs.push_back(std::move(x));
       } else if (!objs.empty()) {
         size_t i = op.kind == 1 ? objs.size() - 1 : 0;
@@ -1161,6 +1201,7 @@ static sx::BfsCase pts_objects_case(int qd, int td) {
           sh.retire(comp, a);
         if (objs[i]->sz == 200000)
           big--;
+        freed[{objs[i]->sz, objs[i]->per_socket}]++;
         objs.erase(objs.begin() + i);
       }
       sh.verify_all(comp, false, ("after " + op.nm).c_str());
@@ -1169,10 +1210,17 @@ static sx::BfsCase pts_objects_case(int qd, int td) {
     std::ostringstream k;
     for (auto& x : objs)
       k << (x->per_socket ? "S" : "T") << x->sz << ",";
-    // offsets freed in this history, per size (deterministic from the history)
+    k << " F:";
+    for (auto& kv : freed)
+      if (kv.second)
+        k << (kv.first.second ? "S" : "T") << kv.first.first << "="
+          << kv.second << ",";
+    // history flag kept in the key so that "offset came back" states are
+    // told apart from first-use states (costs at most a factor 2)
+    k << (sh.reuse_seen ? " reused" : "");
     if (sh.reuse_seen)
       sx::mark_nontrivial();
-    sx::outcome(sx::hash_str(k.str()) ^ (uint64_t)(sh.reuse_seen != 0) << 8);
+    sx::outcome(sx::hash_str(k.str()));
     // the shadow's blocks die with the objects (Guard); forget them first
     sh.live.clear();
     return k.str();
@@ -1344,7 +1392,7 @@ static sx::BfsCase largearray_case(size_t nA, size_t nB, int qd, int td) {
                g_dtor.load() - d0, n);
         // raw again: re-establish the canary
         Blk& b = sh.live.at((uintptr_t)arr[a].data());
-        canary_fill((uint8_t*)b.a, b.n, b.seed);
+        canary_write((uint8_t*)b.a, b.n, b.seed, b.step);
         st[a].st = RAW;
       } else {
         if (st[a].st == U)
@@ -1354,7 +1402,7 @@ static sx::BfsCase largearray_case(size_t nA, size_t nB, int qd, int td) {
           check_elems(a, "before deallocate()");
           arr[a].destroy(); // contract: destroy before deallocate
           Blk& b = sh.live.at(p);
-          canary_fill((uint8_t*)b.a, b.n, b.seed);
+          canary_write((uint8_t*)b.a, b.n, b.seed, b.step);
         }
         sh.retire(comp, p);
         arr[a].deallocate();
@@ -1480,7 +1528,7 @@ int main(int argc, char** argv) {
   bfs.push_back(bump_case(
       "PerIterAllocTy over BumpWithMallocHeap (fresh object)",
       "BumpWithMallocHeap",
-      {1, 8, 9, 4096, M, PAGE - 16, PAGE - 8, PAGE - 7, PAGE + 1, 5 * M}, {}, 1,
+      {1, 8, 9, 4096, M, PAGE - 16, PAGE - 8, PAGE - 7, 3 * M}, {}, 1,
       B_HEAP_OR_PAGE,
       [] { return std::unique_ptr<BumpApi>(new IterAllocApi()); }, 4, 5, 2));
   // --- page pool
